@@ -79,6 +79,9 @@ def generate(rng, tier):
         # pattern re-presented in exact quarter/half turns (vectors that are bitwise opposite or equal, cross products exactly 0)
         spec = worlds.gen_find_world(rng, min_copies=2, max_atoms=30, noise=False, force_axis_exact=True, poses=["aligned"], decoys=rng.random() < 0.3)
         spec["exact_world"] = True
+    elif rng.random() < 0.25:
+        # any listing of a triclinic lattice is a structure of the supported domain: arbitrarily rotated, upper-triangular, left-handed
+        spec = worlds.gen_find_world(rng, min_copies=1, allow_rotated=True, cell_families=["tri_rotated", "tri_upper", "tri_left", "tri_upper", "tri_left"])
     else:
         spec = worlds.gen_find_world(rng, min_copies=1)
     spec["reps"] = _gen_reps(rng, len(spec["elements"]), len(spec["pattern"]["elements"]), False)
